@@ -1,6 +1,7 @@
 from __future__ import annotations
 
 import functools
+import itertools
 import os
 import uuid
 import warnings
@@ -1110,13 +1111,19 @@ class _HLGExprSequence(Expr):
             return None
         from dask.highlevelgraph import HighLevelGraph
 
-        groups = toolz.groupby(
-            lambda x: x.low_level_optimizer if isinstance(x, HLGExpr) else None,
-            self.operands,
-        )
+        # Only *consecutive* operands sharing an optimizer are merged: the output
+        # keys are returned in operand order, so grouping across other operands
+        # (e.g. compute(bag1, array, bag2)) would permute the results
+        groups = [
+            (optimizer, list(group))
+            for optimizer, group in itertools.groupby(
+                self.operands,
+                lambda x: x.low_level_optimizer if isinstance(x, HLGExpr) else None,
+            )
+        ]
         exprs = []
         changed = False
-        for optimizer, group in groups.items():
+        for optimizer, group in groups:
             if len(group) > 1:
                 graphs = [expr.hlg for expr in group]
 
